@@ -184,6 +184,11 @@ def run(prog, rep, tier):
                 nde += 1
                 ok = 'bincode::config::Bounded' in t.callee.get('self_ty', '')
                 rep.ob('ALLOC', ok, 'ALLOC|%s|bincode-bounded' % body.nkey, 'deserialisation runs with a Bounded limit' if ok else 'bincode deserialisation of untrusted data without with_limit', body.loc(b.idx))
+            cn = cnorm(t)
+            if cn.startswith('bincode::') and t.cmethod in ('deserialize', 'deserialize_from', 'deserialize_from_custom') and not t.ctrait:
+                nde += 1
+                rep.ob('ALLOC', False, 'ALLOC|%s|bincode-free-fn-unbounded' % body.nkey,
+                       'bincode::%s (default options: no size limit) deserialises untrusted data: a length field of the input becomes an allocation size' % t.cmethod, body.loc(b.idx))
     rep.floor('ALLOC.bincode', nde, 3, 'bincode deserialisations in scope')
 
     # ---------------- RECUR (direct self recursion)
@@ -269,3 +274,60 @@ def run(prog, rep, tier):
             iv = census.refined_interval(prog, body, a.idx, a.term.args[1])
             ok = ok and iv is not None and iv[1] <= (prog.crates['mla'].const_int('FILENAME_MAX_SIZE') or 0)
         rep.ob('R08.3', ok, 'R08.3|mla::ArchiveFileBlock::from|name-allocation-bounded', 'name buffer bounded by FILENAME_MAX_SIZE' if ok else 'the file-name buffer is allocated from a length that is not bounded by FILENAME_MAX_SIZE', body.loc())
+
+
+CLIPPY_LINTS = ('arithmetic_side_effects', 'indexing_slicing', 'unwrap_used', 'expect_used', 'panic')
+
+
+def clippy_superset(rep, verif, repo, rule, packages):
+    """Thorough-tier cross-reference: every site reported by clippy's opt-in restriction lints (an independently generated census) in the given
+    packages must coincide (file:line) with a site of the MIR census; guards the extractor against silently skipping a construct."""
+    import subprocess, time
+    t0 = time.time()
+    prog = Program(os.path.join(verif, '.cache', 'facts', 'default'))
+    pkg_of = {'mla': 'mla', 'curve25519-parser': 'curve25519-parser', 'mlar': 'mlar', 'mla-bindings-c': 'mla-bindings-c'}
+    lines = set()
+    for pkg in packages:
+        for b in prog.crates[pkg].bodies:
+            for s in census.enumerate_sites(prog, b):
+                sp = s.term.span
+                if sp:
+                    lines.add((sp['file'], sp['line']))
+    env = dict(os.environ, CARGO_TARGET_DIR=os.path.join(verif, '.cache', 'target-clippy'), CARGO_NET_OFFLINE='true')
+    cmd = ['cargo', '+nightly', 'clippy', '--offline', '--message-format=json']
+    for pkg in packages:
+        cmd += ['-p', pkg]
+    cmd += ['--', '--cap-lints', 'warn'] + sum([['-W', 'clippy::' + l] for l in CLIPPY_LINTS], [])
+    r = subprocess.run(cmd, cwd=repo, env=env, capture_output=True, text=True)
+    n = 0
+    un = []
+    for l in r.stdout.splitlines():
+        try:
+            m = json.loads(l)
+        except Exception:
+            continue
+        if m.get('reason') != 'compiler-message':
+            continue
+        msg = m['message']
+        code = (msg.get('code') or {}).get('code', '')
+        if code.split('::')[-1] not in CLIPPY_LINTS:
+            continue
+        prim = [s for s in msg['spans'] if s['is_primary']]
+        if not prim:
+            continue
+        sp = prim[0]
+        dirs = {'mla': 'mla/', 'curve25519-parser': 'curve25519-parser/', 'mlar': 'mlar/', 'mla-bindings-c': 'bindings/C/'}
+        if not any(sp['file_name'].startswith(dirs[p_]) for p_ in packages):
+            continue   # a path dependency linted along the way
+        n += 1
+        if (sp['file_name'], sp['line_start']) not in lines:
+            un.append('%s:%d %s' % (sp['file_name'], sp['line_start'], code))
+    ok = r.returncode == 0 and n > 0 and not un
+    rep.ob(rule, ok, '%s|clippy-superset|%s' % (rule, '+'.join(packages)), 'all %d clippy restriction-lint sites are present in the MIR census' % n if ok else
+           'clippy reports sites the MIR census does not have (extractor gap?): %s (clippy rc=%d, %d sites)' % (un[:8], r.returncode, n), '-')
+    return {'clippy_sites': n, 'clippy_unmatched': un, 'clippy_wall_s': round(time.time() - t0, 1),
+            'clippy_cmd': ' '.join(cmd)}
+
+
+def thorough_extra(rep, verif, repo):
+    return clippy_superset(rep, verif, repo, 'PANIC.x', ['mla', 'mla-bindings-c', 'mlar'])
